@@ -96,11 +96,49 @@ def to_u2(r, prog):
     return out
 
 
+def gen_clonecache(r):
+    """two consecutive comprehensions with the same number of loop variables in one function or lambda body: the first
+    (a generator expression, consumed on the spot) reads a name that is unresolved when visited, the second reads a loop
+    variable of the FIRST.  Every deferred read records a copy of its top scope; if copies were ever shared between
+    scopes of equal size (CPython reuses the address of the freed first comprehension scope for the second), the second
+    read would be resolved against the first comprehension's variables.  The run raises NameError for that name."""
+    pool = list(G.NAMES)
+    r.shuffle(pool)
+    z, later, u, v = pool[0], pool[1], pool[2], pool[3]
+    nv = r.choice([1, 1, 2])
+    v1 = pool[4:4 + nv]
+    v2 = pool[6:6 + nv]
+
+    def tg(vs):
+        return ["n", vs[0]] if len(vs) == 1 else ["t", [["n", x] for x in vs]]
+    first = ["op", "starlist", [["comp", "gen", [[["load", z, []], tg(v1), []]],
+                                 [["op", "call", [["load", later, []], ["load", v1[0], []]]]]]]]
+    k2 = r.choice(["set", "list", "dict"])
+    elts = [["load", r.choice(v1), []]] if k2 != "dict" else [["load", v2[0], []], ["load", r.choice(v1), []]]
+    second = ["comp", k2, [[["load", z, []], tg(v2), []]], elts]
+    g = G.Gen(r, True, maxdepth=2, classes=False, comps=False)
+    pre = g.stmt(0) if r.random() < .4 else []
+    post = g.stmt(0) if r.random() < .4 else []
+    if r.random() < .6:
+        fn = r.choice(["f", "g"])
+        P = {"posonly": [], "args": [[z, None]], "vararg": None, "kwonly": [], "kwarg": None, "defaults": [], "kw_defaults": []}
+        body = [["assign", [["n", u]], first], ["assign", [["n", v]], second]]
+        core = [["def", fn, [], P, None, body], ["assign", [["n", fn]], ["op", "call", [["load", G.REG, []], ["load", fn, []]]]]]
+    else:
+        core = [["expr", ["op", "call", [["load", G.REG, []], ["lambda", [z], [], ["op", "tuple", [first, second]]]]]]]
+    tail = [["assign", [["n", later]], ["load", G.REG, []]]] if r.random() < .5 else []
+    return pre + core + post + tail
+
+
 def make_case(seed, i, kind=None):
     r = cm.rng(seed, "c05", i)
+    if kind is None and i % 25 == 24:
+        kind = "cc"
+    if kind == "cc":
+        return {"kind": "exec", "i": i, "prog": G.normalise(gen_clonecache(r)), "ns": gen_ns(r)}
     if kind is None:
         # 2/10 stage-2 programs (functions and lambdas, no class / comprehension), 1/10 stage 1, the rest as before
-        kind = {0: "s2", 1: "s2", 2: "s1", 4: "u2", 5: "s3", 6: "s3"}.get(i % 10, "exec" if i % 4 != 3 else "free")
+        kind = {0: "s2", 1: "s2", 2: "s1", 4: "u2", 5: "s3", 6: "s3", 8: "u3"}.get(i % 10, "exec" if i % 4 != 3 else "free")
     if kind == "exec":
         prog = G.gen_program(r, True)
     elif kind == "s1":
@@ -114,6 +152,9 @@ def make_case(seed, i, kind=None):
         kind = "exec"
     elif kind == "u2":
         prog = to_u2(r, G.gen_program(r, True, classes=False, funcs=True, comps=False))
+        kind = "exec"
+    elif kind == "u3":
+        prog = to_u2(r, G.gen_program(r, True, classes=False, funcs=True, comps=True))
         kind = "exec"
     else:
         prog = G.gen_program(r, False)
